@@ -45,6 +45,8 @@ def run(ctx):
         outs = pool.map_on("engines.gwork:eval_c01", items, which)
         pin_out = pool.map_on("engines.gwork:eval_ids", [{"G": p["G"]} for p in pins], [i + ctx.seed for i in range(len(pins))])
         marked = pool.map_on("engines.gwork:eval_marked", [{}, {}], [ctx.seed, ctx.seed + 1])
+        from .twork import run_family
+        tviol, tstats = run_family(pool, ctx, vs=(1,))
     requests = sum(o["requests"] for o in outs)
     histories = sum(o["histories"] for o in outs)
     sigs = set()
@@ -81,6 +83,10 @@ def run(ctx):
             res.violation("identifier:marked-parameter", f"(embedder, leaf value, producing task) {sg}: identifier {a['id'][:16]} when the parameter's identifier "
                           f"is requested '{a['hist']}', {b['id'][:16]} when '{b['hist']}'", {"marked": [a, b]})
     requests_marked = sum(len(rows) for rows in marked)
+    # two user threads (real threads, every schedule with <= 1 preemption at the traced line / call events)
+    for kind, key, msg, payload in tviol:
+        if kind != "collision":
+            res.violation(key, msg, payload)
     npin_bad = 0
     for p, o in zip(pins, pin_out):
         if o.get("error") or o.get("id") != p["id"]:
@@ -88,7 +94,8 @@ def run(ctx):
             res.violation(f"pinned:{graph_kind(p['G'])}", f"pinned identifier {p['id'][:16]} of {json.dumps(p['G'])[:500]} is now {o.get('id') or o.get('error')}",
                           {"G": p["G"], "pinned": p["id"], "now": o})
     res.coverage = {
-        "evaluations": requests + requests_marked,
+        "evaluations": requests + requests_marked + tstats["executions"],
+        "two_threads_family": tstats,
         "marked_parameter_family": {"cases": requests_marked, "distinct_contents": len(msig)},
         "distinct_nontrivial": len(sigs),
         "rule": "every description within (N nodes, k deviations) from the default graph of each root class and from the seed graphs "
@@ -96,7 +103,9 @@ def run(ctx):
                 "keyword and dict insertion order, identifier requests on all nodes in every order (all permutations for graphs with sharing "
                 "or cycles and for <=3 nodes, else forward+backward) before sealing, after sealing, and again in reverse} evaluated in two "
                 "worker processes with different PYTHONHASHSEED; evaluations = identifier requests compared with the reference encoder; "
-                "distinct_nontrivial = distinct canonical signatures among the descriptions",
+                "distinct_nontrivial = distinct canonical signatures among the descriptions; plus the family 'two user threads' (Engine T: real threads computing "
+                "identifiers / sealing / instantiating configurations that share sub-configurations, every schedule with <= 1 preemption at the "
+                "traced events of core/objects.py; observations must equal the sequential ones)",
         "samples": clip_samples([descs[0], descs[len(descs) // 2], descs[-1]]),
         "exhaustive": not capped,
         "descriptions": len(descs), "histories": histories, "depth_histogram": hist,
@@ -118,6 +127,9 @@ def replay(ctx, payload):
     if "marked" in payload:
         print(json.dumps(payload["marked"], indent=1))
         return 0
+    if "threads" in payload:
+        from . import twork
+        return twork.replay(payload)
     G = payload["G"]
     print("description:", json.dumps(G))
     h = payload.get("history")
